@@ -32,6 +32,7 @@ def judge (fam payload impl : String) : Verdict :=
   | "amqp.raw" => Amqp.Driver.judgeRaw payload impl
   | "amqp.split" => Amqp.Driver.judgeRaw payload impl (splitMode := true)
   | "redis.conv" => Redis.Driver.judgeConv payload impl
+  | "redis.bigreply" => Redis.Driver.judgeBigReply payload impl
   | "redis.convsplit" => Redis.Driver.judgeConv payload impl (splitMode := true)
   | "redis.raw" => Redis.Driver.judgeRaw payload impl
   | "redis.split" => Redis.Driver.judgeRaw payload impl (splitMode := true)
